@@ -227,4 +227,59 @@ CONTRACTS = {
             ]),
         },
     ),
+
+    # ---------------------------------------------------------------- C13: rare-value store
+    'compute_value_counts': dict(
+        strings='opaque',
+        params={'input_dataframe': {'__class__': 'DataFrame', 'columns': 'list[str]', 'nrows': 'int', 'data': 'FrameData', 'cells': 'const:"str"'},
+                'args': {'__class__': 'args', 'rare_value_count_upper_bound': 'int'},
+                'total': 'counter[tuple[str,str]]'},
+        globals={'GLOBAL_RARE_VALUE_STORAGE': 'counter[tuple[str,str]]', 'IGNORED_VALUES': 'set[tuple[str,str]]'},
+        modifies=['GLOBAL_RARE_VALUE_STORAGE', 'IGNORED_VALUES'],
+        local_kinds={'keys_to_remove': 'list[tuple[str,str]]'},
+        lemmas=['cnt_pstr_bounds'],
+        requires=[
+            ('distinct_columns', 'all(input_dataframe.columns[i] != input_dataframe.columns[j] for j in range(len(input_dataframe.columns)) for i in range(j))'),
+            ('rows', 'input_dataframe.nrows >= 0'), ('threshold', 'args.rare_value_count_upper_bound >= 0'),
+            # class invariant over the ghost history `total` (occurrences of each (column, value) in all rows consumed so far)
+            ('retired_iff_above_threshold', 'forall(lambda k: (k in IGNORED_VALUES) == (total[k] > args.rare_value_count_upper_bound), "tuple[str,str]")'),
+            ('store_exact_below_threshold', 'forall(lambda k: implies(not (k in IGNORED_VALUES), GLOBAL_RARE_VALUE_STORAGE[k] == total[k]), "tuple[str,str]")'),
+            ('store_keys_positive', 'forall(lambda k: implies(k in GLOBAL_RARE_VALUE_STORAGE, GLOBAL_RARE_VALUE_STORAGE[k] >= 1), "tuple[str,str]")'),
+            ('history', 'forall(lambda k: total[k] >= 0, "tuple[str,str]")'),
+        ],
+        ensures=[
+            # the same invariant for total' = total + (occurrences in this batch): the state is a function of the multiset of rows
+            ('retired_iff_above_threshold', 'forall(lambda k: (k in IGNORED_VALUES) == (total[k] + ite(k[0] in input_dataframe.columns, colcnt(input_dataframe, k[0], k[1]), 0) > args.rare_value_count_upper_bound), "tuple[str,str]")'),
+            ('store_exact_below_threshold', 'forall(lambda k: implies(not (k in IGNORED_VALUES), GLOBAL_RARE_VALUE_STORAGE[k] == total[k] + ite(k[0] in input_dataframe.columns, colcnt(input_dataframe, k[0], k[1]), 0)), "tuple[str,str]")'),
+            ('store_keys_positive', 'forall(lambda k: implies(k in GLOBAL_RARE_VALUE_STORAGE, GLOBAL_RARE_VALUE_STORAGE[k] >= 1), "tuple[str,str]")'),
+        ],
+        loops={
+            1: dict(index='j', inv=[
+                ('ignored_unchanged', 'forall(lambda k: (k in ignored_values) == (k in old(IGNORED_VALUES)), "tuple[str,str]")'),
+                ('counted_columns', 'forall(lambda k: global_storage[k] == old(GLOBAL_RARE_VALUE_STORAGE)[k] + ite((not (k in ignored_values)) and '
+                                    'any(input_dataframe.columns[c] == k[0] for c in range(j)), colcnt(input_dataframe, k[0], k[1]), 0), "tuple[str,str]")'),
+                ('keys_positive', 'forall(lambda k: implies(k in global_storage, global_storage[k] >= 1), "tuple[str,str]")'),
+            ]),
+            2: dict(index='i', inv=[
+                ('ignored_unchanged', 'forall(lambda k: (k in ignored_values) == (k in old(IGNORED_VALUES)), "tuple[str,str]")'),
+                ('counted_cells', 'forall(lambda k: global_storage[k] == old(GLOBAL_RARE_VALUE_STORAGE)[k] + ite(not (k in ignored_values), '
+                                  'ite(any(input_dataframe.columns[c] == k[0] for c in range(j)), colcnt(input_dataframe, k[0], k[1]), 0) + '
+                                  'ite(k[0] == column, cnt(main_values, k[1], i), 0), 0), "tuple[str,str]")'),
+                ('keys_positive', 'forall(lambda k: implies(k in global_storage, global_storage[k] >= 1), "tuple[str,str]")'),
+            ]),
+            3: dict(index='m', inv=[
+                ('store_unchanged', 'forall(lambda k: global_storage[k] == pre(global_storage)[k] and (k in global_storage) == (k in pre(global_storage)), "tuple[str,str]")'),
+                ('retire', 'forall(lambda k: (k in ignored_values) == ((k in pre(ignored_values)) or '
+                           '(any(m_seq[t][0] == k for t in range(m)) and pre(global_storage)[k] > rare_value_count_upper_bound)), "tuple[str,str]")'),
+                ('to_remove', 'forall(lambda k: (k in keys_to_remove) == (any(m_seq[t][0] == k for t in range(m)) and '
+                              'pre(global_storage)[k] > rare_value_count_upper_bound), "tuple[str,str]")'),
+                ('to_remove_distinct', 'all(keys_to_remove[a] != keys_to_remove[b] for b in range(len(keys_to_remove)) for a in range(b))'),
+            ]),
+            4: dict(index='r', inv=[
+                ('removed', 'forall(lambda k: (k in global_storage) == ((k in pre(global_storage)) and not any(keys_to_remove[t] == k for t in range(r))), "tuple[str,str]")'),
+                ('values_kept', 'forall(lambda k: implies(k in global_storage, global_storage[k] == pre(global_storage)[k]), "tuple[str,str]")'),
+                ('ignored_kept', 'forall(lambda k: (k in ignored_values) == (k in pre(ignored_values)), "tuple[str,str]")'),
+            ]),
+        },
+    ),
 }
